@@ -13,6 +13,10 @@ SEQ_NOTE = ("bounded: call lattice, depth and device family of the configuration
             "off-detunings are numeric oracles read from the tree at start; trusted: TLC, the projection harness/project.py")
 
 CLAIMED = {
+    "C01": dict(technique="TLA+ model checking (TLC) + spec-to-code replay + trace validation", ref="5 C01"),
+    "C07": dict(technique="TLA+ model checking (TLC) + spec-to-code replay + trace validation", ref="5 C07"),
+    "C13": dict(technique="TLA+ model checking (TLC) + spec-to-code replay + trace validation", ref="5 C13"),
+    "C15": dict(technique="TLA+ model checking (TLC) + spec-to-code replay + trace validation", ref="5 C15"),
     "C02": dict(technique="TLA+ model checking (TLC) + spec-to-code replay + trace validation", ref="5 C02"),
     "C03": dict(technique="TLA+ model checking (TLC) + spec-to-code replay + trace validation", ref="5 C03"),
     "C09": dict(technique="TLA+ model checking (TLC) + spec-to-code replay + trace validation", ref="5 C09"),
@@ -20,7 +24,7 @@ CLAIMED = {
 }
 
 checks = []
-for pid, c in CLAIMED.items():
+for pid, c in sorted(CLAIMED.items()):
     checks.append({
         "property_id": pid,
         "quick_cmd": f"./check {pid} --tier quick",
